@@ -39,6 +39,7 @@ import (
 	"time"
 	"unsafe"
 
+	"github.com/IrineSistiana/mosproxy/internal/dnsmsg"
 	"github.com/IrineSistiana/mosproxy/internal/pool"
 	"github.com/IrineSistiana/mosproxy/internal/upstream/transport"
 	"github.com/miekg/dns"
@@ -120,9 +121,14 @@ type c06case struct {
 	stuck  bool
 	closed bool
 	keep   []pool.Buffer
+	auto   bool // component reusestress: no gates, events go straight to the history
 }
 
 func (h *c06case) event(rank, x, y int, tok string) {
+	if h.auto {
+		h.hist = append(h.hist, tok)
+		return
+	}
 	h.evs = append(h.evs, c06ev{rank, x, y, tok})
 }
 
@@ -139,16 +145,19 @@ func c06id(e int) uint16   { return uint16(e*7 + 1) }
 // nonce carried by a framed (2-byte length) query
 func c06nonceOf(b []byte) int {
 	if len(b) < 2+12 {
-		return -1
+		return 999996 // not a query at all
 	}
 	q := new(dns.Msg)
 	if q.Unpack(b[2:]) != nil || len(q.Question) != 1 {
-		return -1
+		return 999996
 	}
 	n := -1
 	fmt.Sscanf(q.Question[0].Name, "q%d.test.", &n)
-	if n >= 0 && q.Id != c06id(n) {
-		return -2
+	if n < 0 {
+		return 999996
+	}
+	if q.Id != c06id(n) {
+		return 999995 // name and ID of different queries
 	}
 	return n
 }
@@ -161,12 +170,19 @@ func (c *c06conn) Write(b []byte) (int, error) {
 	defer func() { c.inIO-- }()
 	n0 := c06nonceOf(b)
 	h.event(c06U, c.id, n0, fmt.Sprintf("U%d.%d", c.id, n0))
-	c.wBlocked, c.wOpen, c.wNonce = true, false, n0
-	h.cv.Broadcast()
-	for !c.wOpen && !c.closed {
-		h.cv.Wait()
+	if h.auto {
+		// no gate; a short pause between the hand-over and the moment the bytes are read
+		h.mu.Unlock()
+		time.Sleep(time.Duration(n0%7) * 10 * time.Microsecond)
+		h.mu.Lock()
+	} else {
+		c.wBlocked, c.wOpen, c.wNonce = true, false, n0
+		h.cv.Broadcast()
+		for !c.wOpen && !c.closed {
+			h.cv.Wait()
+		}
+		c.wBlocked = false
 	}
-	c.wBlocked = false
 	defer h.cv.Broadcast()
 	if c.closed {
 		h.event(c06E, c.id, 0, fmt.Sprintf("E%d", c.id))
@@ -415,6 +431,48 @@ func c06reply(query []byte, nonce int) []byte {
 	return b
 }
 
+// any buffer in the pool is free: take one of the size the transport used for its payload
+// and scribble a different (well-formed) query on it
+func c06scribble(size int) pool.Buffer {
+	pb := pool.GetBuf(size)
+	pq := c06query(c06Poison)
+	if len(pq)+2 == len(pb) {
+		binary.BigEndian.PutUint16(pb, uint16(len(pq)))
+		copy(pb[2:], pq)
+	}
+	return pb
+}
+
+func c06classify(e int, r *dnsmsg.Msg, err error, ctx context.Context) string {
+	switch {
+	case err == nil && r != nil:
+		nonce := -1
+		b := make([]byte, r.Len())
+		if n, perr := r.Pack(b, false, 0); perr == nil {
+			mm := new(dns.Msg)
+			if mm.Unpack(b[:n]) == nil && len(mm.Answer) == 1 && len(mm.Question) == 1 {
+				if a, ok := mm.Answer[0].(*dns.A); ok {
+					ip := a.A.To4()
+					nonce = int(ip[1])<<16 | int(ip[2])<<8 | int(ip[3])
+					if mm.Question[0].Name != c06name(nonce) || r.Header.ID != c06id(nonce) {
+						nonce = 999998 // inconsistent message
+					}
+				}
+			}
+		}
+		if nonce < 0 {
+			nonce = 999997
+		}
+		return fmt.Sprintf("A%d.%d", e, nonce)
+	case errors.Is(err, context.Canceled) && ctx.Err() != nil:
+		// context.Cause(ctx) of the caller's own ctx (possibly joined with the errors of
+		// earlier attempts); no fake I/O or dial error is a context error
+		return fmt.Sprintf("G%d", e)
+	default:
+		return fmt.Sprintf("F%d", e)
+	}
+}
+
 func (h *c06case) start(e int, cancelled bool) {
 	h.mu.Lock()
 	x := h.ex[e]
@@ -436,41 +494,8 @@ func (h *c06case) start(e int, cancelled bool) {
 	qb := c06query(e)
 	go func() {
 		r, err := h.t.ExchangeContext(x.ctx, qb)
-		// any buffer in the pool is free: take one of the size the transport used and scribble on it
-		pb := pool.GetBuf(len(qb) + 2)
-		pq := c06query(c06Poison)
-		if len(pq)+2 == len(pb) {
-			binary.BigEndian.PutUint16(pb, uint16(len(pq)))
-			copy(pb[2:], pq)
-		}
-		res := ""
-		switch {
-		case err == nil && r != nil:
-			nonce := -1
-			b := make([]byte, r.Len())
-			if n, perr := r.Pack(b, false, 0); perr == nil {
-				mm := new(dns.Msg)
-				if mm.Unpack(b[:n]) == nil && len(mm.Answer) == 1 && len(mm.Question) == 1 {
-					if a, ok := mm.Answer[0].(*dns.A); ok {
-						ip := a.A.To4()
-						nonce = int(ip[1])<<16 | int(ip[2])<<8 | int(ip[3])
-						if mm.Question[0].Name != c06name(nonce) || r.Header.ID != c06id(nonce) {
-							nonce = 999998 // inconsistent message
-						}
-					}
-				}
-			}
-			if nonce < 0 {
-				nonce = 999997
-			}
-			res = fmt.Sprintf("A%d.%d", e, nonce)
-		case errors.Is(err, context.Canceled) && x.ctx.Err() != nil:
-			// context.Cause(ctx) of the caller's own ctx (possibly joined with the errors of
-			// earlier attempts); no fake I/O or dial error is a context error
-			res = fmt.Sprintf("G%d", e)
-		default:
-			res = fmt.Sprintf("F%d", e)
-		}
+		pb := c06scribble(len(qb) + 2)
+		res := c06classify(e, r, err, x.ctx)
 		h.mu.Lock()
 		h.keep = append(h.keep, pb)
 		x.done, x.res = true, res
@@ -613,7 +638,7 @@ func (h *c06case) op(tok string) {
 		}
 		h.mu.Unlock()
 		if c != nil {
-			blocked := h.locked(func() bool { return c.rBlocked && len(c.rbuf) == 0 })
+			blocked := h.locked(func() bool { return (c.rBlocked && len(c.rbuf) == 0) || c.inIO == 0 || c.closed })
 			h.waitFor(blocked)
 			h.mu.Lock()
 			h.send(c, fr[1:len(fr)/2])
@@ -632,7 +657,7 @@ func (h *c06case) op(tok string) {
 		}
 		h.mu.Unlock()
 		if c != nil {
-			h.waitFor(h.locked(func() bool { return c.rBlocked && len(c.rbuf) == 0 }))
+			h.waitFor(h.locked(func() bool { return (c.rBlocked && len(c.rbuf) == 0) || c.inIO == 0 || c.closed }))
 			h.mu.Lock()
 			c.peerClosed, c.rBlocked = true, false
 			h.cv.Broadcast()
@@ -732,6 +757,9 @@ func c06run1(cs string) (out string, redo bool) {
 				redo = true
 			}
 		}
+		if h.stuck {
+			break // the goroutines of the transport did not come to rest: the rest of the script is meaningless
+		}
 		h.op(tok)
 		if tok == "t" {
 			seg = time.Now()
@@ -786,7 +814,7 @@ func c06exec(cs string) string {
 	for try := 0; try < 4; try++ {
 		var redo bool
 		out, redo = c06run1(cs)
-		if !redo {
+		if !redo || (try >= 1 && strings.HasSuffix(out, " stuck")) {
 			break
 		}
 	}
